@@ -1,16 +1,14 @@
 //! Verification hooks, only compiled with the `mahf_verif` feature.
 //!
 //! A [`StepObserver`] stored in the [`State`] is notified before and after every child
-//! component of every [`Block`] is executed.
+//! component of every [`Block`] is executed (after: only if the child returned `Ok`, as an
+//! error ends the block).
 //!
 //! [`Block`]: crate::components::Block
 
 use better_any::{Tid, TidAble};
 
 use crate::{Component, CustomState, Problem, State, StateRegistry};
-
-/// Blocks notify the [`StepObserver`] when this is `true` (always, with the feature enabled).
-pub const OBSERVE_STEPS: bool = true;
 
 /// Whether the observer is called before or after the component was executed.
 #[derive(Debug, Clone, Copy, PartialEq, Eq)]
@@ -47,6 +45,31 @@ pub trait StepObserve<P: Problem>: Send {
 pub struct StepObserver<'a, P: Problem + 'static>(pub Box<dyn StepObserve<P> + 'a>);
 
 impl<'a, P: Problem> CustomState<'a> for StepObserver<'a, P> {}
+
+/// Called by `Block::execute` inside its loop, around the execution of `component`,
+/// which is an element of `children`.
+pub(crate) fn notify_step<'a, P: Problem>(
+    problem: &P,
+    state: &mut State<'a, P>,
+    children: &[Box<dyn Component<P>>],
+    component: &Box<dyn Component<P>>,
+    phase: StepPhase,
+) {
+    let size = std::mem::size_of::<Box<dyn Component<P>>>().max(1);
+    let index = (component as *const _ as usize).wrapping_sub(children.as_ptr() as usize) / size;
+    notify(
+        problem,
+        state,
+        StepInfo {
+            component: component.as_ref(),
+            index,
+            len: children.len(),
+            block: children.as_ptr() as usize,
+            phase,
+            result_is_ok: true,
+        },
+    );
+}
 
 pub(crate) fn notify<'a, P: Problem>(problem: &P, state: &mut State<'a, P>, info: StepInfo<P>) {
     // Find the scope holding the observer.
